@@ -1,69 +1,196 @@
 // Correspondence driver for the storage life cycle (model M6, property C07).
 // usage: drv_storage < ops        (same line protocol as `adept_model storage`, Driver/Storage.lean)
 //
-// Pool of heap-allocated Array<1,int> objects addressed by handle k, external blocks x owned by the
-// harness (plain heap blocks, or FixedArray<int,false,4> objects), all operations are REAL library calls:
-//   reset                       delete everything, forget all tables
+// Pool of heap-allocated array objects addressed by handle k, of five KINDS
+//   v  Array<1,int,false>      m  Array<2,int,false>      a  Array<1,double,true> (its Storage registers gradients)
+//   s  SpecialMatrix<int,SymmEngine<ROW_LOWER_COL_UPPER>,false>      t  SpecialMatrix<int,BandEngine<ROW_MAJOR,1,1>,false>
+// plus one std::vector<X> per kind whose elements are addressed by handle too, external blocks x owned by the harness
+// (plain heap blocks, or FixedArray<int,false,4> objects).  All operations are REAL library calls:
+//   reset                       delete everything, forget all tables, new recording
 //   xnew x n v0                 external block x := new int[n] = v0, v0+1, ...
 //   fnew x v0                   external block x := new FixedArray<int,false,4> = v0, v0+1, ...
 //   xw x i v                    environment writes block[i] = v
 //   xend x                      environment ends block x: contents scribbled (-7777), marked dead; the memory itself is
 //                               released at reset/EOF only, so the harness never reads unmapped memory
-//   new k n v0                  k := new intVector(n)            then filled v0, v0+1, ... (raw memory, harness)
-//   newd k                      k := new intVector()
-//   ext k x off n               k := new intVector(block+off, dimensions(n))
+//   new|newa|news|newt k n v0   k := new X(n)        (n may be negative: the constructor throws, no object)
+//   newm k n0 n1 v0             k := new intMatrix(n0, n1)          then filled v0, v0+1, ... (raw memory, harness)
+//   newd|newdm|newda|newds|newdt k     k := new X()
+//   newfn<sfx> k n v0           k := new X(make<X>(n, v0))          function returning a local array by value
+//   ext k x off n               k := new intVector(block+off, dimensions(n))            (n may be negative: throws)
+//   extfn k x off n             k := new intVector(wrap(block+off, n))      function returning Vector(ptr, dims)
 //   fsl k x lo hi               k := new intVector(F(range(lo,hi)))                     (F a FixedArray block)
-//   cp k b | cpc k b | cpm k b  k := new intVector(b)  (Array&) | (const Array&) | (std::move(b): no move ctor)
-//   sl k b lo hi st             k := new intVector(b(stride(lo,hi,st)))
-//   soft k b                    k := new intVector(b.soft_link())
+//   cp k b | cpc k b | cpm k b  k := new X(b)  (X&) | (const X&) | (std::move(b): no move ctor)
+//   soft k b                    k := new X(b.soft_link())
+//   VIEWS of b, <fn args> one of
+//     sl lo hi st               b(stride(lo,hi,st))                         (v, a)   — ranges may be reversed
+//     row i lo hi st            b(i, stride(lo,hi,st))                      (m)
+//     col lo hi st j            b(stride(lo,hi,st), j)                      (m)
+//     sub lo hi st lo hi st     b(stride(..), stride(..))                   (m)
+//     idx i                     b[i]                                        (m)
+//     tr                        b.T()                                       (m)
+//     diag k                    b.diag_vector(k)                            (m, s, t) — k may lie beyond the matrix
+//     sod i0 i1                 b.submatrix_on_diagonal(i0, i1)             (m, s, t) — bounds may be wrong
+//     rsh d0 d1                 b.reshape(d0, d1)                           (v)       — extents may be wrong / negative
+//     perm i0 i1                b.permute(i0, i1)                           (m)       — dimensions may repeat
+//   used as   <fn> k b args         k := new V(view)
+//             link<fn> a b args     a >>= view                  (temporary bound to link(X&&))
+//             ac<fn> a b args       a = (const V&) view         (copy assignment)
+//             am<fn> a b args       a = view                    (move assignment from a temporary view)
+//             fnsl k b lo hi st     k := new X(view_of_ref(b, lo, hi, st))    function returning a view of its X& parameter
+//             fnvsl k b lo hi st    k := new X(view_of_val(b, lo, hi, st))    ... of its BY-VALUE parameter
+//             amfnsl / amfnvsl a b lo hi st     a = view_of_ref(...) / view_of_val(...)
 //   link a b                    a.link(b)          (>>= is the same function)
-//   linksl a b lo hi st         a >>= b(stride(lo,hi,st))         (temporary bound to link(Array&&))
 //   ac a b                      a = b                                  (copy assignment)
-//   acsl a b lo hi st           a = const(b)(stride(lo,hi,st))         (const temporary: copy assignment)
-//   am a b                      a = std::move(b)                       (move assignment)
-//   amsl a b lo hi st           a = b(stride(lo,hi,st))                (move assignment from a temporary view)
+//   am a b                      a = std::move(b)                       (move assignment; SpecialMatrix has none: copies)
 //   amext a x off n             a = intVector(block+off, dimensions(n))
+//   amextfn a x off n           a = wrap(block+off, n)
 //   amfix a x lo hi             a = F(range(lo,hi))
-//   amfresh a n v0              a = make(n, v0)      function returning a fresh array by value
+//   amfresh a n v0              a = make<X>(n, v0)   function returning a fresh array by value
 //   amfn a b                    a = share(b)         function returning a shallow copy of its argument by value
 //   amdup a b                   a = dup(b)           function returning a deep copy by value
+//   sum k b c | amsum a b c     k := new X(sum_of(b, c)) | a = sum_of(b, c)     function returning `b + c` by value (v, a)
 //   fnrs b n                    byval_resize(b, n)   callee resizes its by-value parameter
 //   fnw b i v                   byval_write(b, i, v) callee writes through its by-value parameter
-//   rs a n v0 | rsi a n v0      a.resize(dimensions(n)) | a.resize(n)   then filled as for `new` (n may be negative)
+//   swp a b | stdswp a b        swap(a, b) (the friend, by ADL; arrays only) | std::swap(a, b) (copy + two move assignments)
+//   vpush k b | vpop k          std::vector<X>::push_back(b) (new element = handle k; growth copies and destroys the
+//                               elements) | pop_back() (k must be the last element)
+//   rs a n v0 | rsi a n v0      a.resize(dimensions(n)) | a.resize(n)   (v, a);  s, t: resize(n, n) | resize(n)
+//   rs2 a n0 n1 v0 | rsi2 ...   a.resize(dimensions(n0,n1)) | a.resize(n0,n1)   (m);  s, t: resize(n0, n1)
+//                               then filled as for `new` (extents may be negative)
 //   clr a                       a.clear()
 //   del a                       delete a
-//   w a i v                     a(i) = v
-//   end                         delete every live array (ascending handle)
+//   w a i v                     element i (canonical order) of a := v, through operator()
+//   end                         clear the std::vectors, delete every live array (ascending handle)
+// make/byval_resize use extents (n) for v, a, s, t and (n, 2) for m.
 // One observation line per op:
-//   <status> | n=<n_storage_objects() since reset> | <k>(st=S# nl=# at=<alloc>+<off> L=<0/1> len=# str=# v=..) ... | X<id>:<live>:<values> ...
+//   <status> | n=<n_storage_objects() since reset> g=<n_gradients_registered()> | <k>(K=<kind> st=S# nl=# sz=<n_allocated()> at=<alloc>+<off>
+//        L=<0/1> len=<d0[xd1]> str=<s0[xs1]> [gi=#] [v=..]) ... | X<id>:<live>:<values> ...
+// Canonical element order: vector by index, matrix row by row, symmetric matrix its stored (lower) triangle row by
+// row, tridiagonal matrix its band row by row.  gi = gradient_index() - storage()->gradient_index() of an active array.
 // Storage objects are labelled S0, S1, ... in order of first discovery (objects scanned by ascending handle after each op).
 // Whether library memory is still allocated is asked from AddressSanitizer (__asan_address_is_poisoned), not from the library.
 #include "spy.h"
 #include <map>
+#include <utility>
+#include <algorithm>
+#include <type_traits>
 #include <sanitizer/asan_interface.h>
 using namespace adept;
+#define NOINLINE __attribute__((noinline))
 typedef Array<1, int, false> IV;
+typedef Array<2, int, false> IM;
+typedef Array<1, double, true> AV;
+typedef SpecialMatrix<int, internal::SymmEngine<ROW_LOWER_COL_UPPER>, false> IS;
+typedef SpecialMatrix<int, internal::BandEngine<ROW_MAJOR, 1, 1>, false> IT;
 typedef FixedArray<int, false, 4> FV;
+enum { KV = 0, KM = 1, KA = 2, KS = 3, KT = 4, NKIND = 5 };
+static const char KCH[NKIND] = { 'v', 'm', 'a', 's', 't' };
 
+struct BadOp {};
+struct Geo { long d0, d1, s0, s1; };
+
+// relative memory index (from data()) of every element, canonical order
+static std::vector<long> rel_cells(int kind, const Geo& g) {
+  std::vector<long> c;
+  if (kind == KV || kind == KA) for (long k = 0; k < g.d0; ++k) c.push_back(k * g.s0);
+  else if (kind == KM) { for (long i = 0; i < g.d0; ++i) for (long j = 0; j < g.d1; ++j) c.push_back(i * g.s0 + j * g.s1); }
+  else if (kind == KS) { for (long i = 0; i < g.d0; ++i) for (long j = 0; j <= i; ++j) c.push_back(i * g.s0 + j); }
+  else { for (long i = 0; i < g.d0; ++i) for (long j = 0; j < g.d0; ++j) if (i <= j + 1 && j <= i + 1) c.push_back(i * g.s0 + j); }
+  return c;
+}
+// (i,j) of canonical element idx
+static void cell_ij(int kind, const Geo& g, long idx, long& i, long& j) {
+  long n = 0;
+  if (kind == KV || kind == KA) { i = idx; j = 0; return; }
+  if (kind == KM) { i = idx / g.d1; j = idx % g.d1; return; }
+  for (i = 0; i < g.d0; ++i) for (j = 0; j < g.d0; ++j) {
+    bool in = kind == KS ? j <= i : (i <= j + 1 && j <= i + 1);
+    if (in) { if (n == idx) return; ++n; }
+  }
+  throw BadOp();
+}
+static long extent_of(int kind, const Geo& g) {
+  if (kind == KV || kind == KA) return g.d0 == 0 ? 0 : (g.d0 - 1) * g.s0 + 1;
+  if (kind == KM) return (g.d0 == 0 || g.d1 == 0) ? 0 : (g.d0 - 1) * g.s0 + (g.d1 - 1) * g.s1 + 1;
+  if (kind == KS) return g.d0 == 0 ? 0 : (g.d0 - 1) * g.s0 + g.d0;
+  return g.d0 == 0 ? 0 : (g.d0 - 1) * (g.s0 + 1) + 1;
+}
+
+// ---- per-class traits
+template <class A> struct Tr;
+template <> struct Tr<IV> { enum { kind = KV }; typedef int T;
+  static Geo geo(const IV& o) { Geo g = { o.dimension(0), 0, o.offset(0), 0 }; return g; }
+  static IV* sized(long n) { return new IV((int)n); }
+  static void resize1(IV& o, long n, bool ints) { if (ints) o.resize((int)n); else o.resize(dimensions((int)n)); }
+  static void resize2(IV&, long, long, bool) { throw BadOp(); }
+  static void put(IV& o, long i, long, long v) { o((int)i) = (int)v; } };
+template <> struct Tr<AV> { enum { kind = KA }; typedef double T;
+  static Geo geo(const AV& o) { Geo g = { o.dimension(0), 0, o.offset(0), 0 }; return g; }
+  static AV* sized(long n) { return new AV((int)n); }
+  static void resize1(AV& o, long n, bool ints) { if (ints) o.resize((int)n); else o.resize(dimensions((int)n)); }
+  static void resize2(AV&, long, long, bool) { throw BadOp(); }
+  static void put(AV& o, long i, long, long v) { o((int)i) = (double)v; } };
+template <> struct Tr<IM> { enum { kind = KM }; typedef int T;
+  static Geo geo(const IM& o) { Geo g = { o.dimension(0), o.dimension(1), o.offset(0), o.offset(1) }; return g; }
+  static IM* sized(long n) { return new IM((int)n, 2); }
+  static void resize1(IM& o, long n, bool) { o.resize(dimensions((int)n, 2)); }
+  static void resize2(IM& o, long n0, long n1, bool ints) { if (ints) o.resize((int)n0, (int)n1); else o.resize(dimensions((int)n0, (int)n1)); }
+  static void put(IM& o, long i, long j, long v) { o((int)i, (int)j) = (int)v; } };
+template <> struct Tr<IS> { enum { kind = KS }; typedef int T;
+  static Geo geo(const IS& o) { Geo g = { o.dimension(), 0, o.offset(), 0 }; return g; }
+  static IS* sized(long n) { return new IS((int)n); }
+  static void resize1(IS& o, long n, bool ints) { if (ints) o.resize((int)n); else o.resize((int)n, (int)n); }
+  static void resize2(IS& o, long n0, long n1, bool) { o.resize((int)n0, (int)n1); }
+  static void put(IS& o, long i, long j, long v) { o((int)i, (int)j) = (int)v; } };
+template <> struct Tr<IT> { enum { kind = KT }; typedef int T;
+  static Geo geo(const IT& o) { Geo g = { o.dimension(), 0, o.offset(), 0 }; return g; }
+  static IT* sized(long n) { return new IT((int)n); }
+  static void resize1(IT& o, long n, bool ints) { if (ints) o.resize((int)n); else o.resize((int)n, (int)n); }
+  static void resize2(IT& o, long n0, long n1, bool) { o.resize((int)n0, (int)n1); }
+  static void put(IT& o, long i, long j, long v) { o((int)i, (int)j) = (int)v; } };
+
+template <class A> static std::vector<A>& bag() { static std::vector<A> b; return b; }
+
+struct Slot { int kind; void* p; };
 struct Ext { int* base; long n; bool live; FV* fixed; };
-struct SRec { int id; Storage<int>* sto; const int* base; long n; bool dead; };
+struct SRec { int id; void* sto; const char* base; long n; size_t esz; bool dbl; bool dead; };
 
-static std::map<long, IV*> pool;
+static std::map<long, Slot> pool;                          // heap objects
+static std::map<long, std::pair<int, size_t> > inbag;       // handle -> (kind, index in bag<kind>)
+static std::vector<long> bagh[NKIND];                       // handles in each bag, in order
 static std::map<long, Ext> exts;
 static std::vector<SRec> stos;
-static long baseline = 0;
+static long baseline = 0, baseline_g = 0;
+static Stack* the_stack = 0;
 
 static bool poisoned(const void* p) { return __asan_address_is_poisoned(p) != 0; }
 static bool region_bad(const void* p, size_t bytes) { return bytes && __asan_region_is_poisoned(const_cast<void*>(p), bytes) != 0; }
 
-// ---- functions used for "passing to and returning from functions"
-static IV make(int n, int v0) { IV r(n); for (int i = 0; i < n; ++i) r(i) = v0 + i; return r; }
-static IV share(IV& v) { IV r(v); return r; }
-static IV dup(const IV& v) { IV r; r = v; return r; }
-static void byval_resize(IV v, int n) { v.resize(n); }
-static void byval_write(IV v, int i, int val) { v(i) = val; }
+#define DISPATCH(K, ...) do { switch (K) { \
+  case KV: { typedef IV A; __VA_ARGS__; } break; case KM: { typedef IM A; __VA_ARGS__; } break; \
+  case KA: { typedef AV A; __VA_ARGS__; } break; case KS: { typedef IS A; __VA_ARGS__; } break; \
+  default: { typedef IT A; __VA_ARGS__; } break; } } while (0)
 
-static SRec* find_sto(Storage<int>* sp) {
+// ---- functions used for "passing to and returning from functions"
+template <class A> static void fill(A& o, long v0) {
+  Geo g = Tr<A>::geo(o);
+  if (!o.data()) return;
+  std::vector<long> c = rel_cells(Tr<A>::kind, g);
+  typename Tr<A>::T* p = const_cast<typename Tr<A>::T*>(o.data());
+  for (size_t i = 0; i < c.size(); ++i) p[c[i]] = (typename Tr<A>::T)(v0 + (long)i);
+}
+template <class A> NOINLINE static A make(long n, long v0) { A r; Tr<A>::resize1(r, n, true); fill(r, v0); return r; }
+template <class A> NOINLINE static A share(A& v) { A r(v); return r; }
+template <class A> NOINLINE static A dup(const A& v) { A r; r = v; return r; }
+template <class A> NOINLINE static void byval_resize(A v, long n) { Tr<A>::resize1(v, n, true); }
+template <class A> NOINLINE static void byval_write(A v, long i, long j, long val) { Tr<A>::put(v, i, j, val); }
+template <class A> NOINLINE static A view_of_ref(A& p, int lo, int hi, int st) { return p(stride(lo, hi, st)); }
+template <class A> NOINLINE static A view_of_val(A p, int lo, int hi, int st) { return p(stride(lo, hi, st)); }
+template <class A> NOINLINE static A sum_of(const A& a, const A& b) { return a + b; }
+NOINLINE static IV wrap(int* p, int n) { return IV(p, dimensions(n)); }
+
+// ---- storage table
+static SRec* find_sto(void* sp) {
   for (size_t i = stos.size(); i-- > 0;) if (stos[i].sto == sp && !stos[i].dead) return &stos[i];
   for (size_t i = stos.size(); i-- > 0;) if (stos[i].sto == sp) return &stos[i];
   return 0;
@@ -71,70 +198,113 @@ static SRec* find_sto(Storage<int>* sp) {
 static void refresh() {
   for (size_t i = 0; i < stos.size(); ++i) if (!stos[i].dead && (poisoned(stos[i].sto) || poisoned(stos[i].base))) stos[i].dead = true;
 }
-static void discover() {
-  refresh();
-  for (std::map<long, IV*>::iterator it = pool.begin(); it != pool.end(); ++it) {
-    Storage<int>* sp = it->second->storage();
-    if (!sp) continue;
-    SRec* r = find_sto(sp);
-    if ((!r || r->dead) && !poisoned(sp)) {
-      SRec n; n.id = (int)stos.size(); n.sto = sp; n.base = sp->data(); n.n = sp->n_allocated(); n.dead = false;
-      stos.push_back(n);
-    }
+static int links_of(const SRec& r) {
+  return r.dbl ? static_cast<Storage<double>*>(r.sto)->n_links() : static_cast<Storage<int>*>(r.sto)->n_links();
+}
+template <class A> static void discover_one(A* o) {
+  typedef typename Tr<A>::T T;
+  Storage<T>* sp = o->storage();
+  if (!sp) return;
+  SRec* r = find_sto(sp);
+  if ((!r || r->dead) && !poisoned(sp)) {
+    SRec n; n.id = (int)stos.size(); n.sto = sp; n.base = reinterpret_cast<const char*>(sp->data()); n.n = sp->n_allocated();
+    n.esz = sizeof(T); n.dbl = std::is_same<T, double>::value; n.dead = false;
+    stos.push_back(n);
   }
 }
+// all live objects by ascending handle
+static std::map<long, Slot> all_objects() {
+  std::map<long, Slot> m(pool);
+  for (std::map<long, std::pair<int, size_t> >::iterator it = inbag.begin(); it != inbag.end(); ++it) {
+    Slot s; s.kind = it->second.first; s.p = 0;
+    DISPATCH(s.kind, s.p = &bag<A>()[it->second.second]);
+    m[it->first] = s;
+  }
+  return m;
+}
+static bool get(long k, Slot& s) {
+  std::map<long, Slot>::iterator it = pool.find(k);
+  if (it != pool.end()) { s = it->second; return true; }
+  std::map<long, std::pair<int, size_t> >::iterator jt = inbag.find(k);
+  if (jt == inbag.end()) return false;
+  s.kind = jt->second.first;
+  DISPATCH(s.kind, s.p = &bag<A>()[jt->second.second]);
+  return true;
+}
+static bool exists(long k) { return pool.count(k) || inbag.count(k); }
+static void discover() {
+  refresh();
+  std::map<long, Slot> m = all_objects();
+  for (std::map<long, Slot>::iterator it = m.begin(); it != m.end(); ++it)
+    DISPATCH(it->second.kind, discover_one(static_cast<A*>(it->second.p)));
+}
 // which allocation does p point into?  writes "S3+2" / "X1+0" / "?" and reports liveness
-static bool locate(const int* p, bool zero_len, std::string& where, bool& live, bool& physical) {
+static bool locate(const char* p, bool zero_len, std::string& where, bool& live, bool& physical) {
   std::ostringstream os;
   for (int pass = 0; pass < 2; ++pass)
     for (size_t i = stos.size(); i-- > 0;) {
       SRec& r = stos[i];
-      if ((pass == 0) == !r.dead && p >= r.base && (p < r.base + r.n || (zero_len && p == r.base + r.n))) {
-        os << "S" << r.id << "+" << (p - r.base); where = os.str(); live = !r.dead; physical = !r.dead; return true;
+      const char* end = r.base + r.n * r.esz;
+      if ((pass == 0) == !r.dead && p >= r.base && (p < end || (zero_len && p == end))) {
+        os << "S" << r.id << "+" << (p - r.base) / (long)r.esz; where = os.str(); live = !r.dead; physical = !r.dead; return true;
       }
     }
   for (std::map<long, Ext>::iterator it = exts.begin(); it != exts.end(); ++it) {
     Ext& e = it->second;
-    if (p >= e.base && (p < e.base + e.n || (zero_len && p == e.base + e.n))) {
-      os << "X" << it->first << "+" << (p - e.base); where = os.str(); live = e.live; physical = true; return true;
+    const char* b = reinterpret_cast<const char*>(e.base);
+    const char* end = reinterpret_cast<const char*>(e.base + e.n);
+    if (p >= b && (p < end || (zero_len && p == end))) {
+      os << "X" << it->first << "+" << (p - b) / (long)sizeof(int); where = os.str(); live = e.live; physical = true; return true;
     }
   }
   where = "?"; live = false; physical = false; return false;
+}
+template <class A> static long grad_delta(A*, void*) { return -1; }
+template <> long grad_delta<AV>(AV* o, void* sp) { return (long)o->gradient_index() - (long)static_cast<Storage<double>*>(sp)->gradient_index(); }
+
+static void put_dims(std::ostream& os, int kind, long a, long b) { os << a; if (kind == KM) os << "x" << b; }
+
+template <class A> static void describe(std::ostream& os, long k, A* o) {
+  typedef typename Tr<A>::T T;
+  const int kind = Tr<A>::kind;
+  os << " " << k << "(K=" << KCH[kind] << " ";
+  Storage<T>* sp = o->storage();
+  SRec* r = 0;
+  if (!sp) os << "st=- nl=-";
+  else {
+    r = find_sto(sp);
+    if (!r) os << "st=? nl=!";
+    else if (r->dead) os << "st=S" << r->id << " nl=!";
+    else os << "st=S" << r->id << " nl=" << links_of(*r) << " sz=" << sp->n_allocated();
+  }
+  const T* p = o->data();
+  Geo g = Tr<A>::geo(*o);
+  if (!p) { os << " at=0 L=- len="; put_dims(os, kind, g.d0, g.d1); }
+  else {
+    std::vector<long> c = rel_cells(kind, g);
+    std::string where; bool live, phys;
+    locate(reinterpret_cast<const char*>(p), c.empty(), where, live, phys);
+    os << " at=" << where << " L=" << (live ? 1 : 0) << " len="; put_dims(os, kind, g.d0, g.d1);
+    os << " str="; put_dims(os, kind, g.s0, g.s1);
+    if (kind == KA && sp && r && !r->dead) os << " gi=" << grad_delta(o, sp);
+    if (!c.empty()) {
+      os << " v=";
+      // only read what is certainly addressable
+      long span = extent_of(kind, g);
+      if (!phys || g.s0 < 0 || g.s1 < 0 || region_bad(p, span * sizeof(T))) os << "!";
+      else for (size_t i = 0; i < c.size(); ++i) os << (i ? "," : "") << (long)p[c[i]];
+    }
+  }
+  os << ")";
 }
 
 static std::string observe(const std::string& status) {
   discover();
   std::ostringstream os;
-  os << status << " | n=" << (n_storage_objects() - baseline) << " |";
-  for (std::map<long, IV*>::iterator it = pool.begin(); it != pool.end(); ++it) {
-    IV* o = it->second;
-    os << " " << it->first << "(";
-    Storage<int>* sp = o->storage();
-    if (!sp) os << "st=- nl=-";
-    else {
-      SRec* r = find_sto(sp);
-      if (!r) os << "st=? nl=!";
-      else if (r->dead) os << "st=S" << r->id << " nl=!";
-      else os << "st=S" << r->id << " nl=" << sp->n_links();
-    }
-    const int* p = o->data();
-    long len = o->dimension(0);
-    if (!p) os << " at=0 L=- len=" << len;
-    else {
-      std::string where; bool live, phys;
-      locate(p, len == 0, where, live, phys);
-      os << " at=" << where << " L=" << (live ? 1 : 0) << " len=" << len;
-      if (len > 0) {
-        long st = o->offset(0);
-        os << " str=" << st << " v=";
-        // only read what is certainly addressable
-        long span = (len - 1) * st + 1;
-        if (!phys || st < 0 || region_bad(p, span * sizeof(int))) os << "!";
-        else for (long i = 0; i < len; ++i) os << (i ? "," : "") << p[i * st];
-      }
-    }
-    os << ")";
-  }
+  os << status << " | n=" << (n_storage_objects() - baseline) << " g=" << ((long)the_stack->n_gradients_registered() - baseline_g) << " |";
+  std::map<long, Slot> m = all_objects();
+  for (std::map<long, Slot>::iterator it = m.begin(); it != m.end(); ++it)
+    DISPATCH(it->second.kind, describe(os, it->first, static_cast<A*>(it->second.p)));
   os << " |";
   for (std::map<long, Ext>::iterator it = exts.begin(); it != exts.end(); ++it) {
     os << " X" << it->first << ":" << (it->second.live ? 1 : 0) << ":";
@@ -143,9 +313,20 @@ static std::string observe(const std::string& status) {
   return os.str();
 }
 
+template <class A> static void clear_bag() { std::vector<A>().swap(bag<A>()); }
+static void clear_bags() {
+  for (int k = 0; k < NKIND; ++k) { DISPATCH(k, clear_bag<A>()); bagh[k].clear(); }
+  inbag.clear();
+}
+static void delete_pool() {
+  while (!pool.empty()) {
+    Slot s = pool.begin()->second; pool.erase(pool.begin());
+    DISPATCH(s.kind, delete static_cast<A*>(s.p));
+  }
+}
 static void free_all() {
-  for (std::map<long, IV*>::iterator it = pool.begin(); it != pool.end(); ++it) delete it->second;
-  pool.clear();
+  clear_bags();
+  delete_pool();
   for (std::map<long, Ext>::iterator it = exts.begin(); it != exts.end(); ++it) {
     if (it->second.fixed) delete it->second.fixed; else delete[] it->second.base;
   }
@@ -158,154 +339,322 @@ static bool num(const std::string& s, long& v) {
   char* e = 0; v = strtol(s.c_str(), &e, 10);
   return *e == 0;
 }
-static IV* obj(long k) { std::map<long, IV*>::iterator it = pool.find(k); return it == pool.end() ? 0 : it->second; }
+template <class A> static void add(long k, A* o) { Slot s; s.kind = Tr<A>::kind; s.p = o; pool[k] = s; }
+
 // data of an operand that is going to be read or written must be addressable (a stale soft link is the user's fault)
-static bool usable(IV* o) {
-  if (!o->data() || o->dimension(0) == 0) return true;
+template <class A> static bool usable_t(A* o) {
+  Geo g = Tr<A>::geo(*o);
+  if (!o->data() || rel_cells(Tr<A>::kind, g).empty()) return true;
   std::string where; bool live, phys;
-  locate(o->data(), false, where, live, phys);
-  long st = o->offset(0), len = o->dimension(0);
-  return phys && st > 0 && !region_bad(o->data(), ((len - 1) * st + 1) * sizeof(int));
+  locate(reinterpret_cast<const char*>(o->data()), false, where, live, phys);
+  return phys && g.s0 >= 0 && g.s1 >= 0 && !region_bad(o->data(), extent_of(Tr<A>::kind, g) * sizeof(typename Tr<A>::T));
 }
-static bool slice_ok(IV* b, long lo, long hi, long st) {
-  long len = b->dimension(0);
-  return len > 0 && st >= 1 && st <= 8 && lo >= 0 && lo < len && hi >= 0 && hi < len && lo <= hi + 1;
+static bool usable(const Slot& s) { bool r = false; DISPATCH(s.kind, r = usable_t(static_cast<A*>(s.p))); return r; }
+static Geo geo_of(const Slot& s) { Geo g = { 0, 0, 0, 0 }; DISPATCH(s.kind, g = Tr<A>::geo(*static_cast<A*>(s.p))); return g; }
+static long ncells(const Slot& s) { return (long)rel_cells(s.kind, geo_of(s)).size(); }
+
+// ---- view requests
+enum Fn { SL, ROW, COL, SUB, IDX, TR, DIAG, SOD, RSH, PERM, NFN };
+static const char* FNAME[NFN] = { "sl", "row", "col", "sub", "idx", "tr", "diag", "sod", "rsh", "perm" };
+static const size_t FARGS[NFN] = { 3, 4, 4, 6, 1, 0, 1, 2, 2, 2 };
+struct Req { Fn fn; long a[6]; bool cst; };
+
+static bool range_ok(long len, long lo, long hi, long st) { return st >= 1 && st <= 8 && lo >= 0 && lo < len && hi >= 0 && hi < len; }
+static bool small(long x) { return x >= -20 && x <= 20; }
+static long labs_(long x) { return x < 0 ? -x : x; }
+// the source has elements, the function exists for its class, indices address the source (the library does not test
+// them); ranges may be reversed, diagonals / extents / sub-matrix bounds may be wrong
+static bool view_ok(const Slot& b, const Req& r) {
+  Geo g = geo_of(b);
+  const long* a = r.a;
+  if (g.d0 == 0 || (b.kind == KM && g.d1 == 0)) return false;
+  switch (r.fn) {
+    case SL: return (b.kind == KV || b.kind == KA) && range_ok(g.d0, a[0], a[1], a[2]);
+    case ROW: return b.kind == KM && a[0] >= 0 && a[0] < g.d0 && range_ok(g.d1, a[1], a[2], a[3]);
+    case COL: return b.kind == KM && a[3] >= 0 && a[3] < g.d1 && range_ok(g.d0, a[0], a[1], a[2]);
+    case SUB: return b.kind == KM && range_ok(g.d0, a[0], a[1], a[2]) && range_ok(g.d1, a[3], a[4], a[5]);
+    case IDX: return b.kind == KM && a[0] >= 0 && a[0] < g.d0;
+    case TR: return b.kind == KM;
+    case DIAG: if (b.kind == KM) return small(a[0]) && !(g.d0 == g.d1 && labs_(a[0]) == g.d0);
+               return (b.kind == KS || b.kind == KT) && small(a[0]) && labs_(a[0]) != g.d0;
+    case SOD: return (b.kind == KM || b.kind == KS || b.kind == KT) && small(a[0]) && small(a[1]);
+    case RSH: return b.kind == KV && small(a[0]) && small(a[1]);
+    case PERM: return b.kind == KM && small(a[0]) && small(a[1]);
+    default: return false;
+  }
 }
-static void fill(IV* o, long v0) {
-  long len = o->dimension(0);
-  for (long i = 0; i < len; ++i) o->data()[i * o->offset(0)] = (int)(v0 + i);
+static int view_kind(int src, Fn fn) {
+  switch (fn) {
+    case SL: case SOD: return src;
+    case ROW: case COL: case IDX: case DIAG: return KV;
+    default: return KM;
+  }
+}
+// evaluates the view expression as a temporary and hands it to the consumer within the same full expression
+template <class C> static void apply_view(const Slot& b, const Req& r, C& c) {
+  const long* a = r.a;
+  switch (b.kind) {
+    case KV: { IV& s = *static_cast<IV*>(b.p);
+      if (r.fn == SL) { if (r.cst) c(const_cast<const IV&>(s)(stride((int)a[0], (int)a[1], (int)a[2]))); else c(s(stride((int)a[0], (int)a[1], (int)a[2]))); }
+      else if (r.fn == RSH) c(s.reshape((int)a[0], (int)a[1]));
+      else throw BadOp();
+    } break;
+    case KA: { AV& s = *static_cast<AV*>(b.p);
+      if (r.fn == SL) { if (r.cst) c(const_cast<const AV&>(s)(stride((int)a[0], (int)a[1], (int)a[2]))); else c(s(stride((int)a[0], (int)a[1], (int)a[2]))); }
+      else throw BadOp();
+    } break;
+    case KM: { IM& s = *static_cast<IM*>(b.p);
+      switch (r.fn) {
+        case ROW: c(s((int)a[0], stride((int)a[1], (int)a[2], (int)a[3]))); break;
+        case COL: c(s(stride((int)a[0], (int)a[1], (int)a[2]), (int)a[3])); break;
+        case SUB: c(s(stride((int)a[0], (int)a[1], (int)a[2]), stride((int)a[3], (int)a[4], (int)a[5]))); break;
+        case IDX: c(s[(int)a[0]]); break;
+        case TR: c(s.T()); break;
+        case DIAG: c(s.diag_vector((int)a[0])); break;
+        case SOD: c(s.submatrix_on_diagonal((int)a[0], (int)a[1])); break;
+        case PERM: c(s.permute((int)a[0], (int)a[1])); break;
+        default: throw BadOp();
+      }
+    } break;
+    case KS: { IS& s = *static_cast<IS*>(b.p);
+      if (r.fn == DIAG) c(s.diag_vector((int)a[0]));
+      else if (r.fn == SOD) c(s.submatrix_on_diagonal((int)a[0], (int)a[1]));
+      else throw BadOp();
+    } break;
+    default: { IT& s = *static_cast<IT*>(b.p);
+      if (r.fn == DIAG) c(s.diag_vector((int)a[0]));
+      else if (r.fn == SOD) c(s.submatrix_on_diagonal((int)a[0], (int)a[1]));
+      else throw BadOp();
+    } break;
+  }
+}
+// consumers of a temporary view
+struct CNew { long k; template <class V> void operator()(V&& v) { typedef typename std::decay<V>::type VT; add(k, new VT(std::forward<V>(v))); } };
+struct CLink { Slot x; template <class V> void operator()(V&& v) { typedef typename std::decay<V>::type VT;
+  if ((int)Tr<VT>::kind != x.kind) throw BadOp(); (*static_cast<VT*>(x.p)) >>= std::move(const_cast<VT&>(v)); } };
+struct CMove { Slot x; template <class V> void operator()(V&& v) { typedef typename std::decay<V>::type VT;
+  if ((int)Tr<VT>::kind != x.kind) throw BadOp(); *static_cast<VT*>(x.p) = std::move(const_cast<VT&>(v)); } };
+struct CCopy { Slot x; template <class V> void operator()(V&& v) { typedef typename std::decay<V>::type VT;
+  if ((int)Tr<VT>::kind != x.kind) throw BadOp(); *static_cast<VT*>(x.p) = static_cast<const VT&>(v); } };
+
+// ---- generic operations
+template <class A> static void op_copy_ctor(const std::string& c, long k, A* b) {
+  if (c == "cp") add(k, new A(*b));
+  else if (c == "cpc") add(k, new A(*const_cast<const A*>(b)));
+  else add(k, new A(std::move(*b)));
+}
+template <class A> static void op_assign(const std::string& c, A* x, A* b) {
+  if (c == "ac") *x = *const_cast<const A*>(b);
+  else if (c == "am") *x = std::move(*b);
+  else if (c == "amfn") *x = share(*b);
+  else *x = dup(*b);
+}
+template <class A> static void op_std_swap(A* x, A* b) { std::swap(*x, *b); }
+template <class A> static void op_adl_swap(A* x, A* b) { swap(*x, *b); }
+template <> void op_adl_swap<IS>(IS*, IS*) { throw BadOp(); }
+template <> void op_adl_swap<IT>(IT*, IT*) { throw BadOp(); }
+template <class A> static void op_vpush(long k, A* b) {
+  std::vector<A>& v = bag<A>();
+  v.push_back(*b);
+  inbag[k] = std::make_pair((int)Tr<A>::kind, v.size() - 1);
+  bagh[Tr<A>::kind].push_back(k);
+}
+template <class A> static void op_vpop(long k) {
+  bag<A>().pop_back();
+  inbag.erase(k);
+  bagh[Tr<A>::kind].pop_back();
+}
+template <class A> static void op_write(A* x, long idx, long v, bool byval) {
+  long i, j; cell_ij(Tr<A>::kind, Tr<A>::geo(*x), idx, i, j);
+  if (byval) byval_write<A>(*x, i, j, v); else Tr<A>::put(*x, i, j, v);
 }
 
 int main() {
   std::string line;
+  Stack stack;
+  the_stack = &stack;
   baseline = n_storage_objects();
+  baseline_g = (long)stack.n_gradients_registered();
   while (std::getline(std::cin, line)) {
     std::vector<std::string> w = verif::words(line);
     if (w.empty()) continue;
-    std::vector<long> a(w.size(), 0);
+    std::vector<long> a(w.size() + 8, 0);
     bool nums = true;
     for (size_t i = 1; i < w.size(); ++i) nums = nums && num(w[i], a[i]);
     const std::string& c = w[0];
     size_t na = w.size() - 1;
     std::string status = "ok";
     if (!nums) { std::cout << "bad-op\n"; continue; }
+#define BAD { std::cout << "bad-op\n"; continue; }
+#define SKIP { std::cout << "skip-dangling\n"; continue; }
     try {
-      if (c == "reset" && na == 0) { free_all(); baseline = n_storage_objects(); std::cout << "reset\n"; continue; }
+      Slot x, b, b2;
+      if (c == "reset" && na == 0) {
+        free_all(); stack.new_recording();
+        baseline = n_storage_objects(); baseline_g = (long)stack.n_gradients_registered();
+        std::cout << "reset\n"; continue;
+      }
       else if (c == "xnew" && na == 3) {
-        if (exts.count(a[1]) || a[2] < 1 || a[2] > 16) { std::cout << "bad-op\n"; continue; }
+        if (a[1] < 0 || exts.count(a[1]) || a[2] < 1 || a[2] > 16) BAD
         Ext e; e.n = a[2]; e.base = new int[e.n]; e.live = true; e.fixed = 0;
         for (long i = 0; i < e.n; ++i) e.base[i] = (int)(a[3] + i);
         exts[a[1]] = e;
       } else if (c == "fnew" && na == 2) {
-        if (exts.count(a[1])) { std::cout << "bad-op\n"; continue; }
+        if (a[1] < 0 || exts.count(a[1])) BAD
         Ext e; e.n = 4; e.fixed = new FV(); e.base = e.fixed->data(); e.live = true;
         for (long i = 0; i < 4; ++i) (*e.fixed)(i) = (int)(a[2] + i);
         exts[a[1]] = e;
       } else if (c == "xw" && na == 3) {
-        if (!exts.count(a[1]) || !exts[a[1]].live || a[2] < 0 || a[2] >= exts[a[1]].n) { std::cout << "bad-op\n"; continue; }
+        if (!exts.count(a[1]) || !exts[a[1]].live || a[2] < 0 || a[2] >= exts[a[1]].n) BAD
         exts[a[1]].base[a[2]] = (int)a[3];
       } else if (c == "xend" && na == 1) {
-        if (!exts.count(a[1]) || !exts[a[1]].live) { std::cout << "bad-op\n"; continue; }
+        if (!exts.count(a[1]) || !exts[a[1]].live) BAD
         Ext& e = exts[a[1]];
         for (long i = 0; i < e.n; ++i) e.base[i] = -7777;
         e.live = false;
-      } else if (c == "new" && na == 3) {
-        if (obj(a[1]) || a[2] < 0 || a[2] > 16) { std::cout << "bad-op\n"; continue; }
-        IV* o = new IV((int)a[2]); pool[a[1]] = o; fill(o, a[3]);
-      } else if (c == "newd" && na == 1) {
-        if (obj(a[1])) { std::cout << "bad-op\n"; continue; }
-        pool[a[1]] = new IV();
-      } else if (c == "ext" && na == 4) {
-        if (obj(a[1]) || !exts.count(a[2]) || exts[a[2]].fixed || a[3] < 0 || a[4] < 0 || a[3] + a[4] > exts[a[2]].n || a[3] >= exts[a[2]].n)
-          { std::cout << "bad-op\n"; continue; }
-        pool[a[1]] = new IV(exts[a[2]].base + a[3], dimensions((int)a[4]));
+      } else if (c == "newm" && na == 4) {
+        if (a[1] < 0 || exists(a[1]) || a[2] < -3 || a[2] > 8 || a[3] < -3 || a[3] > 8) BAD
+        IM* o = new IM((int)a[2], (int)a[3]); add(a[1], o); fill(*o, a[4]);
+      } else if ((c == "ext" || c == "extfn") && na == 4) {
+        if (a[1] < 0 || exists(a[1]) || !exts.count(a[2]) || exts[a[2]].fixed || a[3] < 0 || a[4] < -3 || a[3] + a[4] > exts[a[2]].n || a[3] >= exts[a[2]].n) BAD
+        if (c == "ext") add(a[1], new IV(exts[a[2]].base + a[3], dimensions((int)a[4])));
+        else add(a[1], new IV(wrap(exts[a[2]].base + a[3], (int)a[4])));
       } else if (c == "fsl" && na == 4) {
-        if (obj(a[1]) || !exts.count(a[2]) || !exts[a[2]].fixed || a[3] < 0 || a[4] > 3 || a[3] > a[4]) { std::cout << "bad-op\n"; continue; }
-        pool[a[1]] = new IV((*exts[a[2]].fixed)(range((int)a[3], (int)a[4])));
+        if (a[1] < 0 || exists(a[1]) || !exts.count(a[2]) || !exts[a[2]].fixed || a[3] < 0 || a[4] > 3 || a[3] > a[4]) BAD
+        add(a[1], new IV((*exts[a[2]].fixed)(range((int)a[3], (int)a[4]))));
       } else if ((c == "cp" || c == "cpc" || c == "cpm") && na == 2) {
-        IV* b = obj(a[2]);
-        if (obj(a[1]) || !b) { std::cout << "bad-op\n"; continue; }
-        if (c == "cp") pool[a[1]] = new IV(*b);
-        else if (c == "cpc") pool[a[1]] = new IV(*const_cast<const IV*>(b));
-        else pool[a[1]] = new IV(std::move(*b));
-      } else if (c == "sl" && na == 5) {
-        IV* b = obj(a[2]);
-        if (obj(a[1]) || !b || !slice_ok(b, a[3], a[4], a[5])) { std::cout << "bad-op\n"; continue; }
-        pool[a[1]] = new IV((*b)(stride((int)a[3], (int)a[4], (int)a[5])));
+        if (a[1] < 0 || exists(a[1]) || !get(a[2], b)) BAD
+        DISPATCH(b.kind, op_copy_ctor(c, a[1], static_cast<A*>(b.p)));
       } else if (c == "soft" && na == 2) {
-        IV* b = obj(a[2]);
-        if (obj(a[1]) || !b) { std::cout << "bad-op\n"; continue; }
-        pool[a[1]] = new IV(b->soft_link());
+        if (a[1] < 0 || exists(a[1]) || !get(a[2], b)) BAD
+        DISPATCH(b.kind, add(a[1], new A(static_cast<A*>(b.p)->soft_link())));
       } else if (c == "link" && na == 2) {
-        IV* x = obj(a[1]); IV* b = obj(a[2]);
-        if (!x || !b) { std::cout << "bad-op\n"; continue; }
-        x->link(*b);
-      } else if (c == "linksl" && na == 5) {
-        IV* x = obj(a[1]); IV* b = obj(a[2]);
-        if (!x || !b || !slice_ok(b, a[3], a[4], a[5])) { std::cout << "bad-op\n"; continue; }
-        (*x) >>= (*b)(stride((int)a[3], (int)a[4], (int)a[5]));
+        if (!get(a[1], x) || !get(a[2], b) || x.kind != b.kind) BAD
+        DISPATCH(x.kind, static_cast<A*>(x.p)->link(*static_cast<A*>(b.p)));
       } else if ((c == "ac" || c == "am" || c == "amfn" || c == "amdup") && na == 2) {
-        IV* x = obj(a[1]); IV* b = obj(a[2]);
-        if (!x || !b) { std::cout << "bad-op\n"; continue; }
-        if (!usable(x) || !usable(b)) { std::cout << "skip-dangling\n"; continue; }
-        if (c == "ac") *x = *const_cast<const IV*>(b);
-        else if (c == "am") *x = std::move(*b);
-        else if (c == "amfn") *x = share(*b);
-        else *x = dup(*b);
-      } else if ((c == "acsl" || c == "amsl") && na == 5) {
-        IV* x = obj(a[1]); IV* b = obj(a[2]);
-        if (!x || !b || !slice_ok(b, a[3], a[4], a[5])) { std::cout << "bad-op\n"; continue; }
-        if (!usable(x) || !usable(b)) { std::cout << "skip-dangling\n"; continue; }
-        if (c == "acsl") *x = (*const_cast<const IV*>(b))(stride((int)a[3], (int)a[4], (int)a[5]));
-        else *x = (*b)(stride((int)a[3], (int)a[4], (int)a[5]));
-      } else if (c == "amext" && na == 4) {
-        IV* x = obj(a[1]);
-        if (!x || !exts.count(a[2]) || exts[a[2]].fixed || a[3] < 0 || a[4] < 0 || a[3] + a[4] > exts[a[2]].n || a[3] >= exts[a[2]].n)
-          { std::cout << "bad-op\n"; continue; }
-        if (!usable(x)) { std::cout << "skip-dangling\n"; continue; }
-        *x = IV(exts[a[2]].base + a[3], dimensions((int)a[4]));
+        if (!get(a[1], x) || !get(a[2], b) || x.kind != b.kind) BAD
+        if (!usable(x) || !usable(b)) SKIP
+        DISPATCH(x.kind, op_assign(c, static_cast<A*>(x.p), static_cast<A*>(b.p)));
+      } else if ((c == "amext" || c == "amextfn") && na == 4) {
+        if (!get(a[1], x) || !exts.count(a[2]) || exts[a[2]].fixed || a[3] < 0 || a[4] < -3 || a[3] + a[4] > exts[a[2]].n || a[3] >= exts[a[2]].n || x.kind != KV) BAD
+        if (!usable(x)) SKIP
+        if (c == "amext") *static_cast<IV*>(x.p) = IV(exts[a[2]].base + a[3], dimensions((int)a[4]));
+        else *static_cast<IV*>(x.p) = wrap(exts[a[2]].base + a[3], (int)a[4]);
       } else if (c == "amfix" && na == 4) {
-        IV* x = obj(a[1]);
-        if (!x || !exts.count(a[2]) || !exts[a[2]].fixed || a[3] < 0 || a[4] > 3 || a[3] > a[4]) { std::cout << "bad-op\n"; continue; }
-        if (!usable(x)) { std::cout << "skip-dangling\n"; continue; }
-        *x = (*exts[a[2]].fixed)(range((int)a[3], (int)a[4]));
+        if (!get(a[1], x) || !exts.count(a[2]) || !exts[a[2]].fixed || a[3] < 0 || a[4] > 3 || a[3] > a[4] || x.kind != KV) BAD
+        if (!usable(x)) SKIP
+        *static_cast<IV*>(x.p) = (*exts[a[2]].fixed)(range((int)a[3], (int)a[4]));
       } else if (c == "amfresh" && na == 3) {
-        IV* x = obj(a[1]);
-        if (!x || a[2] < 0 || a[2] > 16) { std::cout << "bad-op\n"; continue; }
-        if (!usable(x)) { std::cout << "skip-dangling\n"; continue; }
-        *x = make((int)a[2], (int)a[3]);
+        if (!get(a[1], x) || a[2] < 0 || a[2] > 8) BAD
+        if (!usable(x)) SKIP
+        DISPATCH(x.kind, *static_cast<A*>(x.p) = make<A>(a[2], a[3]));
       } else if (c == "fnrs" && na == 2) {
-        IV* b = obj(a[1]);
-        if (!b || a[2] < 0 || a[2] > 16) { std::cout << "bad-op\n"; continue; }
-        byval_resize(*b, (int)a[2]);
+        if (!get(a[1], b) || a[2] < -2 || a[2] > 8) BAD
+        DISPATCH(b.kind, byval_resize<A>(*static_cast<A*>(b.p), a[2]));
       } else if (c == "fnw" && na == 3) {
-        IV* b = obj(a[1]);
-        if (!b || a[2] < 0 || a[2] >= b->dimension(0)) { std::cout << "bad-op\n"; continue; }
-        if (!usable(b)) { std::cout << "skip-dangling\n"; continue; }
-        byval_write(*b, (int)a[2], (int)a[3]);
-      } else if ((c == "rs" || c == "rsi") && na == 3) {
-        IV* x = obj(a[1]);
-        if (!x || a[2] > 16 || a[2] < -4) { std::cout << "bad-op\n"; continue; }
-        if (c == "rs") x->resize(dimensions((int)a[2])); else x->resize((int)a[2]);
-        fill(x, a[3]);
+        if (!get(a[1], b) || a[2] < 0 || a[2] >= ncells(b)) BAD
+        if (!usable(b)) SKIP
+        DISPATCH(b.kind, op_write(static_cast<A*>(b.p), a[2], a[3], true));
       } else if (c == "clr" && na == 1) {
-        IV* x = obj(a[1]);
-        if (!x) { std::cout << "bad-op\n"; continue; }
-        x->clear();
+        if (!get(a[1], x)) BAD
+        DISPATCH(x.kind, static_cast<A*>(x.p)->clear());
       } else if (c == "del" && na == 1) {
-        IV* x = obj(a[1]);
-        if (!x) { std::cout << "bad-op\n"; continue; }
+        if (!pool.count(a[1])) BAD
+        x = pool[a[1]];
         pool.erase(a[1]);
-        delete x;
+        DISPATCH(x.kind, delete static_cast<A*>(x.p));
       } else if (c == "w" && na == 3) {
-        IV* x = obj(a[1]);
-        if (!x || a[2] < 0 || a[2] >= x->dimension(0)) { std::cout << "bad-op\n"; continue; }
-        if (!usable(x)) { std::cout << "skip-dangling\n"; continue; }
-        (*x)((int)a[2]) = (int)a[3];
+        if (!get(a[1], x) || a[2] < 0 || a[2] >= ncells(x)) BAD
+        if (!usable(x)) SKIP
+        DISPATCH(x.kind, op_write(static_cast<A*>(x.p), a[2], a[3], false));
+      } else if (c == "swp" && na == 2) {
+        if (!get(a[1], x) || !get(a[2], b) || x.kind != b.kind || x.kind == KS || x.kind == KT) BAD
+        DISPATCH(x.kind, op_adl_swap(static_cast<A*>(x.p), static_cast<A*>(b.p)));
+      } else if (c == "stdswp" && na == 2) {
+        if (!get(a[1], x) || !get(a[2], b) || x.kind != b.kind) BAD
+        if (!usable(x) || !usable(b)) SKIP
+        DISPATCH(x.kind, op_std_swap(static_cast<A*>(x.p), static_cast<A*>(b.p)));
+      } else if (c == "sum" && na == 3) {
+        if (a[1] < 0 || exists(a[1]) || !get(a[2], b) || !get(a[3], b2) || b.kind != b2.kind || (b.kind != KV && b.kind != KA)) BAD
+        if (!usable(b) || !usable(b2)) SKIP
+        if (b.kind == KV) add(a[1], new IV(sum_of(*static_cast<IV*>(b.p), *static_cast<IV*>(b2.p))));
+        else add(a[1], new AV(sum_of(*static_cast<AV*>(b.p), *static_cast<AV*>(b2.p))));
+      } else if (c == "amsum" && na == 3) {
+        if (!get(a[1], x) || !get(a[2], b) || !get(a[3], b2) || b.kind != b2.kind || x.kind != b.kind || (b.kind != KV && b.kind != KA)) BAD
+        if (!usable(x) || !usable(b) || !usable(b2)) SKIP
+        if (b.kind == KV) *static_cast<IV*>(x.p) = sum_of(*static_cast<IV*>(b.p), *static_cast<IV*>(b2.p));
+        else *static_cast<AV*>(x.p) = sum_of(*static_cast<AV*>(b.p), *static_cast<AV*>(b2.p));
+      } else if (c == "vpush" && na == 2) {
+        if (a[1] < 0 || exists(a[1]) || !get(a[2], b)) BAD
+        DISPATCH(b.kind, op_vpush(a[1], static_cast<A*>(b.p)));
+      } else if (c == "vpop" && na == 1) {
+        if (!inbag.count(a[1])) BAD
+        int kd = inbag[a[1]].first;
+        if (bagh[kd].empty() || bagh[kd].back() != a[1]) BAD
+        DISPATCH(kd, op_vpop<A>(a[1]));
       } else if (c == "end" && na == 0) {
-        while (!pool.empty()) { IV* x = pool.begin()->second; pool.erase(pool.begin()); delete x; }
-      } else { std::cout << "bad-op\n"; continue; }
+        clear_bags();
+        delete_pool();
+      } else if (c.compare(0, 4, "newd") == 0) {
+        std::string sfx = c.substr(4);
+        int kd = sfx == "" ? KV : sfx == "m" ? KM : sfx == "a" ? KA : sfx == "s" ? KS : sfx == "t" ? KT : -1;
+        if (kd < 0 || na != 1 || a[1] < 0 || exists(a[1])) BAD
+        DISPATCH(kd, add(a[1], new A()));
+      } else if (c.compare(0, 5, "newfn") == 0) {
+        std::string sfx = c.substr(5);
+        int kd = sfx == "" ? KV : sfx == "m" ? KM : sfx == "a" ? KA : sfx == "s" ? KS : sfx == "t" ? KT : -1;
+        if (kd < 0 || na != 3 || a[1] < 0 || exists(a[1]) || a[2] < -3 || a[2] > 8) BAD
+        DISPATCH(kd, add(a[1], new A(make<A>(a[2], a[3]))));
+      } else if (c.compare(0, 3, "new") == 0) {
+        std::string sfx = c.substr(3);
+        int kd = sfx == "" ? KV : sfx == "a" ? KA : sfx == "s" ? KS : sfx == "t" ? KT : -1;
+        if (kd < 0 || na != 3 || a[1] < 0 || exists(a[1]) || a[2] < -3 || a[2] > 16) BAD
+        DISPATCH(kd, { A* o = Tr<A>::sized(a[2]); add(a[1], o); fill(*o, a[3]); });
+      } else if ((c == "rs" || c == "rsi") && na == 3) {
+        if (!get(a[1], x) || x.kind == KM || a[2] > 16 || a[2] < -4) BAD
+        DISPATCH(x.kind, { Tr<A>::resize1(*static_cast<A*>(x.p), a[2], c == "rsi"); fill(*static_cast<A*>(x.p), a[3]); });
+      } else if ((c == "rs2" || c == "rsi2") && na == 4) {
+        if (!get(a[1], x) || x.kind == KV || x.kind == KA || a[2] > 8 || a[2] < -4 || a[3] > 8 || a[3] < -4) BAD
+        DISPATCH(x.kind, { Tr<A>::resize2(*static_cast<A*>(x.p), a[2], a[3], c == "rsi2"); fill(*static_cast<A*>(x.p), a[4]); });
+      } else {
+        // <form><fn> x b args
+        static const char* FORMS[] = { "", "link", "ac", "am", "fn", "fnv", "amfn", "amfnv" };
+        int form = -1, fn = -1;
+        for (int f = 0; f < 8 && form < 0; ++f) {
+          size_t L = strlen(FORMS[f]);
+          if (c.compare(0, L, FORMS[f]) != 0) continue;
+          for (int g = 0; g < NFN; ++g) if (c.substr(L) == FNAME[g]) { form = f; fn = g; break; }
+        }
+        if (form < 0 || na != 2 + FARGS[fn] || !get(a[2], b)) BAD
+        Req r; r.fn = (Fn)fn; r.cst = false;
+        for (size_t i = 0; i < 6; ++i) r.a[i] = a[3 + i];
+        if (!view_ok(b, r)) BAD
+        if (form == 0 || form == 4 || form == 5) {
+          if ((form == 4 || form == 5) && fn != SL) BAD
+          if (a[1] < 0 || exists(a[1])) BAD
+          if (form == 0) { CNew cn; cn.k = a[1]; apply_view(b, r, cn); }
+          else if (b.kind == KV) { IV* s = static_cast<IV*>(b.p);
+            add(a[1], form == 4 ? new IV(view_of_ref(*s, (int)r.a[0], (int)r.a[1], (int)r.a[2])) : new IV(view_of_val(*s, (int)r.a[0], (int)r.a[1], (int)r.a[2]))); }
+          else { AV* s = static_cast<AV*>(b.p);
+            add(a[1], form == 4 ? new AV(view_of_ref(*s, (int)r.a[0], (int)r.a[1], (int)r.a[2])) : new AV(view_of_val(*s, (int)r.a[0], (int)r.a[1], (int)r.a[2]))); }
+        } else {
+          if (!get(a[1], x)) BAD
+          if ((form == 6 || form == 7) && fn != SL) BAD
+          if (x.kind != view_kind(b.kind, (Fn)fn)) BAD
+          if (form == 1) { CLink cl; cl.x = x; apply_view(b, r, cl); }
+          else {
+            if (!usable(x) || !usable(b)) SKIP
+            if (form == 2) { CCopy cc; cc.x = x; r.cst = true; apply_view(b, r, cc); }
+            else if (form == 3) { CMove cm; cm.x = x; apply_view(b, r, cm); }
+            else if (b.kind == KV) { IV* s = static_cast<IV*>(b.p); IV* t = static_cast<IV*>(x.p);
+              if (form == 6) *t = view_of_ref(*s, (int)r.a[0], (int)r.a[1], (int)r.a[2]); else *t = view_of_val(*s, (int)r.a[0], (int)r.a[1], (int)r.a[2]); }
+            else { AV* s = static_cast<AV*>(b.p); AV* t = static_cast<AV*>(x.p);
+              if (form == 6) *t = view_of_ref(*s, (int)r.a[0], (int)r.a[1], (int)r.a[2]); else *t = view_of_val(*s, (int)r.a[0], (int)r.a[1], (int)r.a[2]); }
+          }
+        }
+      }
     }
+    catch (const BadOp&) { std::cout << "bad-op\n"; continue; }
     catch (const empty_array&) { status = "exc:empty_array"; }
     catch (const size_mismatch&) { status = "exc:size_mismatch"; }
     catch (const invalid_dimension&) { status = "exc:invalid_dimension"; }
